@@ -3,6 +3,8 @@ package main
 import (
 	"time"
 
+	"verif/simdisk"
+
 	"verif/harness/core"
 )
 
@@ -18,6 +20,9 @@ func init() {
 		*fBudget = total * 5 / 6
 		res.merge(runSeq("C20"), "")
 		*fBudget = total
+		if *fShard == 0 {
+			goMetricsPass("C20", res)
+		}
 		return res
 	}
 }
@@ -227,4 +232,33 @@ func seqThenCrash(prop string) *ShardResult {
 		heldValueCases(res)
 	}
 	return res
+}
+
+// goMetricsPass runs a few fixed workloads with the go-metrics collector (non-empty prefix with spare capacity)
+// behind a probing sink: every emitted key is prefix + a published name, and no two keys share memory.
+func goMetricsPass(prop string, res *ShardResult) {
+	wls := [][]core.Op{
+		{a(1, 0, 4), a(2, 0, 4), {K: "D", Min: 1, Max: 1}},
+		{a(1, 0, 4, 4), a(3, 0, 4), {K: "D", Min: 3, Max: 3}, {K: "R"}, a(3, 1, 12)},
+		{{K: "S", Key: "k1", Val: []byte("v")}, {K: "U", Key: "k2", U64: 7}, a(5, 0, 4)},
+	}
+	for _, cfg := range []core.Config{{SegSize: 64}, {SegSize: 4096}} {
+		for _, ops := range wls {
+			p := core.NewGoMetricsProbe()
+			sys := core.Mount(simdisk.NewState(), cfg)
+			if p.Collector != nil {
+				sys.MC = p.Collector
+			}
+			core.RunSession(nil, cfg, ops, core.SessionOpts{Sys: sys, ObserveEach: true, CmpProp: "C05", CloseAtEnd: true})
+			sys.Unmount()
+			res.Counts["evaluations"]++
+			res.Counts["go_metrics_collector_runs"]++
+			res.Counts["traces_validated"]++
+			for _, v := range p.Viol {
+				if len(res.Findings) < 40 {
+					res.Findings = append(res.Findings, core.Finding{Prop: prop, Engine: "gometrics", Msg: v, Cfg: cfg, Ops: ops, SigS: prop + "|gometrics|" + firstLine(v)})
+				}
+			}
+		}
+	}
 }
